@@ -43,7 +43,8 @@ class PathResolver:
         """
         try:
             if file_path.is_absolute():
-                return file_path.relative_to(self.project_root)
+                # normpath: /abs/proj/src/../tests/t.py is tests/t.py, whatever the spelling
+                return Path(os.path.normpath(file_path)).relative_to(self.project_root)
             # Relative spellings (e.g. "../pkg/a.py" from a sub-directory) name the same file:
             # the verdict depends on the path inside the project, not on the working directory
             absolute = Path(os.path.abspath(file_path))
